@@ -7,6 +7,7 @@ import itertools
 BIG = [8, 9, 16, 17, 33, 64, 65]
 # list lengths around every block, chunk or vector width
 LONG = [255, 256, 257, 300, 1025]
+LONG2 = [4097, 5000]       # beyond 4096 rows (on 1-3 qubits every string then occurs many times, with different phases)
 
 
 def unit(n2, k):
